@@ -456,7 +456,10 @@ func (f *DefaultFanController) calculateTargetPwm() (int, error) {
 	fan := f.fan
 	target, err := f.curve.Evaluate()
 	if err != nil {
-		ui.Fatal("Unable to calculate optimal PWM value for %s: %v", fan.GetId(), err)
+		// a curve that cannot be evaluated (e.g. its sensor cannot be read) is a
+		// control error: the caller restores the fan and stops regulating it
+		ui.Error("Unable to calculate optimal PWM value for %s: %v", fan.GetId(), err)
+		return -1, err
 	}
 
 	// the control loop works in the [0..255] scale of the curve, so it has to be fed
